@@ -21,7 +21,7 @@ fn families(prop: &str, tier: &str) -> Option<Vec<Family>> {
         "C09" => { let f = props::c09(tier); let names: Vec<&str> = f.iter().map(|x| x.name).collect(); props::with_flavours(f, &names, tier) }
         "C10" => { let f = props::c10(tier); let names: Vec<&str> = f.iter().map(|x| x.name).collect(); props::with_flavours(f, &names, tier) }
         "C11" => props::c11(tier),
-        "C14" => props::c14(tier),
+        "C14" => { let f = props::c14(tier); let names: Vec<&str> = f.iter().map(|x| x.name).collect(); props::with_flavours(f, &names, tier) }
         "C16" => props::c16(tier),
         "C17" => props::c17(tier),
         "C18" => props::c18(tier),
